@@ -69,6 +69,12 @@ def exhaustive_cases(max_n=5, max_k=5, starts=range(-9, 10)):
                        {"op": "rotate", "r": r, "anchor": 0, "start": st},
                        {"op": "rotate", "r": r, "anchor": [1, 2, -1], "start": st},
                        {"op": "rotate", "r": r, "anchor": [[j, 1, -j] for j in range(max(k, 1) + 1)], "start": st}]
+                if k >= 2:      # per-step anchors SHORTER than the rotation input (edge-padded behind)
+                    ops.append({"op": "rotate", "r": r, "anchor": [[j, 1, -j] for j in range(k - 1)], "start": st})
+                if k == 0:      # the unit rotation must still pad the path / follow the anchor path
+                    ops.append({"op": "rotate", "r": None, "anchor": None, "start": st})
+                    ops.append({"op": "rotate", "r": None, "anchor": [[j, 1, -j] for j in range(3)], "start": st})
+                    ops.append({"op": "move", "d": [0, 0, 0], "start": st})
                 for o in ops:
                     out.append({"init": init, "ops": [o]})
     return out
@@ -117,6 +123,8 @@ def c_inp_vec(d):
 
 
 def c_inp_rot(r):
+    if r is None:                      # rotate(None): the unit rotation, scalar input
+        return "(Scalar " + coct(octa.IDENT) + ")"
     if isinstance(r, (list, tuple)):
         return "(Vector " + clist([coct(i) for i in r]) + ")"
     return "(Scalar " + coct(r) + ")"
@@ -133,7 +141,7 @@ def c_op(op):
     if k == "rotate":
         a = op["anchor"]
         ca = "None" if a is None else ("(Some (Scalar (0, 0, 0)))" if a == 0 else f"(Some {c_inp_vec(a)})")
-        return f"(Rotate {c_inp_rot(op['r'])} {ca} {c_start(op['start'])})"
+        return f"(Rotate {c_inp_rot(op['r'])} {ca} {c_start(op['start'])})"      # r None -> unit rotation
     if k == "setpos":
         return f"(SetPos {c_inp_vec(op['p'])})"
     if k == "setori":
@@ -201,6 +209,7 @@ def oracle_step(pos, quat, op, rots):
         return np_, nq
     if k == "rotate":
         r = rots(op["r"])
+        r = R.identity() if r is None else r
         rq = r.as_quat()
         a = op["anchor"]
         a = None if a is None else (np.zeros(3) if isinstance(a, (int, float)) else np.array(a, dtype=float))
@@ -247,18 +256,62 @@ def rot_close(q1, q2, tol=1e-9):
     return bool(np.all((R.from_quat(q1) * R.from_quat(q2).inv()).magnitude() < tol))
 
 
-def oracle_check_history(init_p, init_r, ops, rots):
+INPUT_KEYS = ("d", "p", "anchor")
+
+
+def resolve_op(obj, op):
+    """concrete call arguments: {"alias": "_position"|"position"} -> the object's OWN array (not a copy),
+    "nd": True -> float64 ndarrays instead of lists.  Returns (op for the call, op for the oracle with copies)"""
+    call, orc = dict(op), dict(op)
+    for k in INPUT_KEYS:
+        v = op.get(k)
+        if isinstance(v, dict) and "alias" in v:
+            arr = obj._position if v["alias"] == "_position" else obj.position
+            call[k], orc[k] = arr, np.array(arr, dtype=float, copy=True)
+        elif op.get("nd") and isinstance(v, (list, tuple)):
+            call[k], orc[k] = np.array(v, dtype=np.float64), np.array(v, dtype=np.float64)
+    return call, orc
+
+
+def input_magnitude(op):
+    m = 0.0
+    for k in INPUT_KEYS:
+        v = op.get(k)
+        if v is not None and not isinstance(v, (int, dict)) and np.size(v):
+            m = max(m, float(np.abs(np.asarray(v, dtype=float)).max()))
+    return m
+
+
+def make_object(init_p, init_r, rots, cls=None):
+    return (cls or magpy.Sensor)(position=init_p, orientation=rots(init_r))
+
+
+def oracle_check_history(init_p, init_r, ops, rots, cls=None):
     """run ops on a real object, compare every intermediate state with the oracle.
     returns None or (op index, description)"""
-    obj = magpy.Sensor(position=init_p, orientation=rots(init_r))
+    obj = make_object(init_p, init_r, rots, cls)
     for i, op in enumerate(ops):
         pos, quat = obj._position.copy(), obj._orientation.as_quat().copy()
-        epos, equat = oracle_step(pos, quat, op, rots)
-        apply_op(obj, op, rots)
+        if op["op"] == "bad":          # a malformed call in the middle of a history: rejected, nothing changes
+            name, call = BAD_CALLS[op["i"]]
+            try:
+                call(obj)
+                return i, f"malformed call #{op['i']} ({name}) accepted"
+            except Exception:   # pylint: disable=broad-except
+                pass
+            if obj._position.shape != pos.shape or not np.array_equal(obj._position, pos) \
+                    or not np.array_equal(obj._orientation.as_quat(), quat):
+                return i, f"rejected call #{op['i']} ({name}) changed the path"
+            continue
+        cop, oop = resolve_op(obj, op)
+        epos, equat = oracle_step(pos, quat, oop, rots)
+        apply_op(obj, cop, rots)
         gpos, gquat = obj._position, obj._orientation.as_quat()
         if len(gpos) != len(gquat) or len(gpos) < 1:
             return i, f"position/orientation lengths {len(gpos)}/{len(gquat)}"
-        if gpos.shape != epos.shape or not np.allclose(gpos, epos, rtol=1e-9, atol=1e-9):
+        # tolerance relative to the scale of this path and of this input (works at 1e-6 as at 1e3)
+        mag = max(float(np.abs(pos).max()), float(np.abs(epos).max()), input_magnitude(oop))
+        if gpos.shape != epos.shape or not np.allclose(gpos, epos, rtol=0, atol=1e-9 * mag + 1e-300):
             return i, f"position path differs from documented semantics (shape {gpos.shape} vs {epos.shape})"
         if not rot_close(gquat, equat):
             return i, "orientation path differs from documented semantics"
@@ -267,49 +320,197 @@ def oracle_check_history(init_p, init_r, ops, rots):
 
 def op_signature(op, n):
     k = op["op"]
+    if k == "bad":
+        return "rejected:" + BAD_CALLS[op["i"]][0]
     if k in ("move", "rotate"):
         x = op["d"] if k == "move" else op["r"]
-        sc = not isinstance(x, (list, tuple)) or (k == "move" and not isinstance(x[0], (list, tuple)))
+        if isinstance(x, dict):
+            sc = False                       # an aliased position path
+        elif k == "rotate" and isinstance(x, (list, tuple)) and x and isinstance(x[0], float):
+            sc = True                        # one rotation vector
+        else:
+            sc = not isinstance(x, (list, tuple)) or (k == "move" and not isinstance(x[0], (list, tuple)))
         st = op["start"]
         cls = "auto" if st == "auto" else ("neg-beyond" if st < -n else "neg" if st < 0 else "beyond" if st >= n else "inside")
         an = ""
         if k == "rotate":
             a = op["anchor"]
-            an = ":anchor-" + ("none" if a is None else "0" if a == 0 else
+            an = ":anchor-" + ("none" if a is None else "alias" if isinstance(a, dict) else "0" if a == 0 else
                                "path" if isinstance(a[0], (list, tuple)) else "single")
+            if op["r"] is None:
+                an += ":unit-rotation"
+        if any(isinstance(op.get(q), dict) for q in INPUT_KEYS):
+            an += ":aliased-input"
         return f"{k}:{'scalar' if sc else 'vector'}:start-{cls}{an}"
     return k
 
 
 # generic float inputs for the oracle sweep
+SCALES = [1.0, 1.0, 1e-3, 1e-6, 1e3]
+
+
 def gen_float_history(rng, nops):
-    def fvec():
-        return [round(rng.uniform(-3, 3), 3) for _ in range(3)]
+    sc = rng.choice(SCALES)            # absolute length scale of positions, displacements, anchors
+
+    def fvec(special=True):
+        x = rng.random()
+        if special and x < 0.06:
+            return [0.0, 0.0, 0.0]
+        if special and x < 0.15:       # exactly along +-x, +-y, +-z
+            v = [0.0, 0.0, 0.0]
+            v[rng.randrange(3)] = rng.choice([-1.0, 1.0]) * sc * rng.choice([1.0, 2.5])
+            return v
+        return [round(rng.uniform(-3, 3), 3) * sc for _ in range(3)]
 
     def finp(maxk=4):
-        return fvec() if rng.random() < 0.4 else [fvec() for _ in range(rng.randint(1, maxk))]
+        if rng.random() < 0.4:
+            return fvec()
+        k = rng.randint(16, 24) if rng.random() < 0.04 else rng.randint(1, maxk)
+        return [fvec() for _ in range(k)]
+
+    def rvec():
+        x = rng.random()
+        if x < 0.08:                   # unit rotation given as a rotation
+            return [0.0, 0.0, 0.0]
+        if x < 0.2:                    # quarter turns and 180-degree flips about the axes, both senses
+            v = [0.0, 0.0, 0.0]
+            v[rng.randrange(3)] = rng.choice([-1.0, 1.0]) * rng.choice([np.pi / 2, np.pi])
+            return v
+        return [round(rng.uniform(-3, 3), 3) for _ in range(3)]
 
     def frot(maxk=4):
         if rng.random() < 0.4:
-            return fvec()
-        return [fvec() for _ in range(rng.randint(1, maxk))]
+            return rvec()
+        k = rng.randint(16, 24) if rng.random() < 0.04 else rng.randint(1, maxk)
+        return [rvec() for _ in range(k)]
+
+    def alias():
+        return {"alias": rng.choice(["_position", "position"])}
 
     ops = []
     for _ in range(nops):
         x = rng.random()
-        if x < 0.35:
-            ops.append({"op": "move", "d": finp(), "start": gen_start(rng)})
-        elif x < 0.8:
-            a = rng.choice(["none", "zero", "vec"])
-            ops.append({"op": "rotate", "r": frot(), "anchor": None if a == "none" else 0 if a == "zero" else finp(),
-                        "start": gen_start(rng)})
-        elif x < 0.88:
-            ops.append({"op": "setpos", "p": finp()})
+        if x < 0.33:
+            op = {"op": "move", "d": alias() if rng.random() < 0.06 else finp(), "start": gen_start(rng)}
+        elif x < 0.76:
+            a = rng.choice(["none", "zero", "vec", "vec", "alias"])
+            anchor = None if a == "none" else 0 if a == "zero" else finp() if a == "vec" else \
+                (alias() if rng.random() < 0.3 else finp())
+            op = {"op": "rotate", "r": None if rng.random() < 0.05 else frot(), "anchor": anchor,
+                  "start": gen_start(rng)}
+        elif x < 0.84:
+            op = {"op": "setpos", "p": alias() if rng.random() < 0.1 else finp()}
+        elif x < 0.92:
+            op = {"op": "setori", "r": None if rng.random() < 0.2 else frot()}
         elif x < 0.96:
-            ops.append({"op": "setori", "r": None if rng.random() < 0.2 else frot()})
+            op = {"op": "reset"}
         else:
-            ops.append({"op": "reset"})
+            op = {"op": "bad", "i": rng.randrange(len(BAD_CALLS))}
+        if rng.random() < 0.3:
+            op["nd"] = True            # float64 ndarrays instead of lists
+        ops.append(op)
     return {"init": {"p": finp(3), "r": None if rng.random() < 0.4 else frot(3)}, "ops": ops}
+
+
+def battery_cases():
+    """small fixed battery, run on every run: exact special values at several length scales"""
+    out = []
+    hp = np.pi / 2
+    for sc in (1.0, 1e-6, 1e3):
+        P3 = [[1.0 * sc, 2.0 * sc, -3.0 * sc], [0.5 * sc, 0.0, 4.0 * sc], [-2.0 * sc, 1.0 * sc, 1.0 * sc]]
+        R3 = [[0.1, 0.2, 0.3], [0.0, 0.0, hp], [1.0, -1.0, 0.5]]
+        A2 = [[1.0 * sc, 0.0, 0.0], [0.0, -2.0 * sc, 0.0]]
+        for init in ({"p": P3, "r": R3}, {"p": P3[0], "r": None}):
+            for st in ("auto", 0, 1, -5, 5):
+                for anchor in (None, 0, [0.0, 0.0, 1.0 * sc], A2):
+                    # unit rotations in every form still pad the path and follow the anchor path
+                    for r in (None, [0.0, 0.0, 0.0], [[0.0, 0.0, 0.0]]):
+                        out.append({"init": init, "ops": [{"op": "rotate", "r": r, "anchor": anchor, "start": st}]})
+                    # flips / quarter turns, both senses, and a rotation input LONGER than the anchor path
+                    out.append({"init": init, "ops": [
+                        {"op": "rotate", "r": [np.pi, 0.0, 0.0], "anchor": anchor, "start": st},
+                        {"op": "rotate", "r": [[0.0, -hp, 0.0], [0.0, 0.0, hp], [0.0, 0.0, -np.pi], [hp, 0.0, 0.0]],
+                         "anchor": anchor, "start": st}]})
+                # zero and axis-aligned displacements
+                out.append({"init": init, "ops": [{"op": "move", "d": [0.0, 0.0, 0.0], "start": st},
+                                                  {"op": "move", "d": [[0.0, 0.0, 0.0]], "start": st},
+                                                  {"op": "move", "d": [[-sc, 0.0, 0.0], [0.0, sc, 0.0]], "start": st}]})
+            # long inputs (>= 16 rows) inside / before / beyond the path; ndarray inputs; own arrays passed back in
+            long_d = [[0.1 * j * sc, -0.2 * sc, 0.05 * j * j * sc] for j in range(17)]
+            long_r = [[0.0, 0.0, 0.1 * j] for j in range(18)]
+            for st in ("auto", 1, -20, 3):
+                out.append({"init": init, "ops": [{"op": "move", "d": long_d, "start": st, "nd": True},
+                                                  {"op": "rotate", "r": long_r, "anchor": A2 + [P3[2]], "start": st},
+                                                  {"op": "move", "d": {"alias": "_position"}, "start": st},
+                                                  {"op": "rotate", "r": [0.3, 0.0, 0.0], "anchor": {"alias": "position"},
+                                                   "start": st},
+                                                  {"op": "setpos", "p": {"alias": "position"}},
+                                                  {"op": "setpos", "p": {"alias": "_position"}}]})
+            # two resets in a row, setters twice, a rejected call in the middle
+            out.append({"init": init, "ops": [{"op": "reset"}, {"op": "reset"}, {"op": "move", "d": P3, "start": "auto"},
+                                              {"op": "bad", "i": 0}, {"op": "setori", "r": R3[:2]},
+                                              {"op": "bad", "i": 9}, {"op": "setori", "r": R3[:2]},
+                                              {"op": "setpos", "p": P3[:1], "nd": True}, {"op": "bad", "i": 19},
+                                              {"op": "setpos", "p": P3[:1]}, {"op": "reset"}, {"op": "reset"}]})
+    return out
+
+
+def public_classes():
+    verts = [(0, 0, 0), (1, 0, 0), (0, 1, 0), (0, 0, 1)]
+    mk = {
+        "Sensor": lambda **k: magpy.Sensor(pixel=[(0, 0, 0), (0, 0, 1)], **k),
+        "Collection": lambda **k: magpy.Collection(**k),
+        "Cuboid": lambda **k: magpy.magnet.Cuboid(polarization=(0, 0, 1), dimension=(1, 2, 3), **k),
+        "Cylinder": lambda **k: magpy.magnet.Cylinder(polarization=(0, 0, 1), dimension=(1, 2), **k),
+        "CylinderSegment": lambda **k: magpy.magnet.CylinderSegment(polarization=(0, 0, 1), dimension=(1, 2, 1, 0, 90), **k),
+        "Sphere": lambda **k: magpy.magnet.Sphere(polarization=(0, 0, 1), diameter=1, **k),
+        "Tetrahedron": lambda **k: magpy.magnet.Tetrahedron(polarization=(0, 0, 1), vertices=verts, **k),
+        "TriangularMesh": lambda **k: magpy.magnet.TriangularMesh(
+            polarization=(0, 0, 1), vertices=verts, faces=[(0, 2, 1), (0, 1, 3), (0, 3, 2), (1, 2, 3)], **k),
+        "Circle": lambda **k: magpy.current.Circle(current=1, diameter=1, **k),
+        "Polyline": lambda **k: magpy.current.Polyline(current=1, vertices=[(0, 0, 0), (1, 1, 1)], **k),
+        "Dipole": lambda **k: magpy.misc.Dipole(moment=(1, 2, 3), **k),
+        "Triangle": lambda **k: magpy.misc.Triangle(polarization=(0, 0, 1), vertices=verts[:3], **k),
+        "CustomSource": lambda **k: magpy.misc.CustomSource(**k),
+    }
+    return mk
+
+
+def class_battery(ctx):
+    """every public class goes through the same path machinery: constructor padding, all operations,
+    setters, reset -- against the documented semantics"""
+    hist = {"init": {"p": [[1.0, 2.0, 3.0], [0.0, 1.0, 0.0], [2.0, 2.0, -1.0]], "r": [[0.0, 0.0, 0.5], [0.3, 0.0, 0.0]]},
+            "ops": [{"op": "move", "d": [[1.0, 0.0, 0.0], [0.0, 2.0, 0.0]], "start": -4},
+                    {"op": "rotate", "r": [[0.0, 0.0, 1.0], [0.0, 1.0, 0.0], [1.0, 0.0, 0.0]],
+                     "anchor": [[0.0, 0.0, 1.0], [1.0, 0.0, 0.0]], "start": 3},
+                    {"op": "rotate", "r": None, "anchor": 0, "start": 7},
+                    {"op": "setpos", "p": [[0.0, 0.0, 1.0], [0.0, 0.0, 2.0]]},
+                    {"op": "setori", "r": [[0.1, 0.0, 0.0], [0.2, 0.0, 0.0], [0.3, 0.0, 0.0]]},
+                    {"op": "move", "d": [0.0, 0.0, 1.0], "start": "auto"}, {"op": "bad", "i": 3},
+                    {"op": "reset"}, {"op": "rotate", "r": [0.0, 0.4, 0.0], "anchor": [1.0, 1.0, 1.0], "start": -2}]}
+    inits = [hist["init"], {"p": [[1.0, 2.0, 3.0], [0.0, 1.0, 0.0]], "r": [[0.0, 0.0, 0.5], [0.3, 0.0, 0.0], [0.0, 0.1, 0.0]]},
+             {"p": [1.0, 2.0, 3.0], "r": None}]
+    for name, mk in public_classes().items():
+        for init in inits:
+            ctx.case(("class", name, json.dumps(init)), True)
+            ctx.bump("class-battery:" + name)
+            try:
+                obj = mk(position=init["p"], orientation=rotvec_rot(init["r"]))
+                ep, er = len(np.reshape(init["p"], (-1, 3))), (1 if init["r"] is None else len(init["r"]))
+                if len(obj._position) != max(ep, er) or len(obj._orientation) != max(ep, er):
+                    ctx.impl_fail(f"path-spec/init-lengths:{name}",
+                                  f"{name}(position len {ep}, orientation len {er}) has path lengths "
+                                  f"{len(obj._position)}/{len(obj._orientation)}",
+                                  {"kind": "class-history", "class": name, "init": init, "ops": []})
+                    continue
+                res = oracle_check_history(init["p"], init["r"], hist["ops"], rotvec_rot, cls=mk)
+            except Exception as e:   # pylint: disable=broad-except
+                res = (0, f"raised {type(e).__name__}: {e}")
+            if res is not None:
+                i, what = res
+                ctx.impl_fail(f"path-spec/{name}:" + (op_signature(hist["ops"][i], 3) if hist["ops"] else "init"),
+                              f"{name}: {what}", {"kind": "class-history", "class": name, "init": init,
+                                                  "ops": hist["ops"][:i + 1]})
 
 
 def rotvec_rot(x):
@@ -346,7 +547,7 @@ def check_rotate_from(ctx, n):
                 a.rotate_from_rotvec(rv, anchor=anchor, start=start, degrees=deg)
                 b.rotate(R.from_rotvec(np.deg2rad(rv) if deg else rv), anchor=anchor, start=start)
             elif form == "euler":
-                seq = rng.choice(["x", "zy", "xyz", "ZXZ"])
+                seq = rng.choice(["x", "Y", "zy", "xyz", "ZXZ", "XYZ", "ZYX", "YX", "zyx"])
                 shape = (len(seq),) if k == 0 else (k, len(seq))
                 ang = np.array([rng.uniform(-80, 80) for _ in range(int(np.prod(shape)))]).reshape(shape)
                 if len(seq) == 1 and k == 0:
@@ -428,8 +629,10 @@ def check_rejections(ctx):
 
 # ------------------------------------------------------------------ main
 def oracle_sweep(ctx, n_hist, nops):
-    for t in range(n_hist):
-        case = gen_float_history(ctx.rng, nops)
+    fixed = battery_cases()
+    for t in range(len(fixed) + n_hist):
+        case = fixed[t] if t < len(fixed) else gen_float_history(ctx.rng, nops)
+        ctx.bump("float-battery" if t < len(fixed) else "float-random")
         res = oracle_check_history(case["init"]["p"], case["init"]["r"], case["ops"], rotvec_rot)
         ctx.case(("float", json.dumps(case, sort_keys=True)), True)
         for op in case["ops"]:
@@ -537,13 +740,15 @@ def run(ctx):
         run_guarded(ctx, lambda: exact_oracle(ctx, cases[:600]), "C09 exact oracle")
     run_guarded(ctx, lambda: check_rotate_from(ctx, ctx.n(120, 2400)), "C09 rotate_from")
     run_guarded(ctx, lambda: check_rejections(ctx), "C09 rejections")
+    run_guarded(ctx, lambda: class_battery(ctx), "C09 class battery")
 
 
 def replay(ctx, obj):
     rp = obj.get("replay", obj)
-    if rp.get("kind") in ("float-history", "exact-history"):
-        rots = rotvec_rot if rp["kind"] == "float-history" else octa.rot
-        res = oracle_check_history(rp["init"]["p"], rp["init"]["r"], rp["ops"], rots)
+    if rp.get("kind") in ("float-history", "exact-history", "class-history"):
+        rots = octa.rot if rp["kind"] == "exact-history" else rotvec_rot
+        cls = public_classes()[rp["class"]] if rp["kind"] == "class-history" else None
+        res = oracle_check_history(rp["init"]["p"], rp["init"]["r"], rp["ops"], rots, cls=cls)
         print("replay:", "property holds on this history" if res is None else f"FAILS at op {res[0]}: {res[1]}")
         if res is not None:
             print(f"VIOLATION property=C09 replay={obj.get('how_to_rerun', '').split()[-1] or 'given'}")
